@@ -2082,3 +2082,41 @@ impl InflightBlocks {
         self.protect_num = protect_num;
     }
 }
+
+/// verification hook: `HeadersSyncController` as a plain value (its fields and `is_timeout` are
+/// crate-private); add-only, off by default
+#[cfg(feature = "verif-hooks")]
+impl HeadersSyncController {
+    /// the five fields, in declaration order
+    pub fn verif_new(
+        started_ts: u64,
+        started_tip_ts: u64,
+        last_updated_ts: u64,
+        last_updated_tip_ts: u64,
+        is_close_to_the_end: bool,
+    ) -> Self {
+        Self {
+            started_ts,
+            started_tip_ts,
+            last_updated_ts,
+            last_updated_tip_ts,
+            is_close_to_the_end,
+        }
+    }
+
+    /// the five fields, in declaration order
+    pub fn verif_fields(&self) -> (u64, u64, u64, u64, bool) {
+        (
+            self.started_ts,
+            self.started_tip_ts,
+            self.last_updated_ts,
+            self.last_updated_tip_ts,
+            self.is_close_to_the_end,
+        )
+    }
+
+    /// `is_timeout` as the synchronizer's eviction pass calls it
+    pub fn verif_is_timeout(&mut self, now_tip_ts: u64, now: u64) -> Option<bool> {
+        self.is_timeout(now_tip_ts, now)
+    }
+}
